@@ -81,10 +81,11 @@ type world struct {
 	waitTag  map[string]chan wrec // writes announced per tag
 	all      []wrec
 	hook     func(wrec) // conc mode: called (outside the lock) on every successful write
+	early    map[string]func(wrec) // seq mode: reply delivered before WritePkg returns to the caller
 }
 
 func newWorld() *world {
-	return &world{failTags: map[string]bool{}, waitTag: map[string]chan wrec{}}
+	return &world{failTags: map[string]bool{}, waitTag: map[string]chan wrec{}, early: map[string]func(wrec){}}
 }
 
 func (w *world) tagChan(tag string) chan wrec {
@@ -104,7 +105,11 @@ func (w *world) onWrite(s *fakeSession, m message.RpcMessage) (int, int, error) 
 	fail := w.failTags[r.Tag] || (r.Tag == "hb" && w.failHB)
 	w.all = append(w.all, r)
 	hook := w.hook
+	early := w.early[r.Tag]
 	w.mu.Unlock()
+	if early != nil && !fail {
+		early(r)
+	}
 	if fail {
 		return 0, 0, fmt.Errorf("fake session: scripted write failure")
 	}
@@ -342,6 +347,69 @@ func (r *runner) send(sync bool, wfail bool) *waiterInfo {
 		}
 	}
 	return wi
+}
+
+// sendEarly: the coordinator's reply overtakes the caller: it is processed while the
+// caller is still inside WritePkg, i.e. before it blocks on the completion signal
+func (r *runner) sendEarly() {
+	wi := &waiterInfo{k: r.nextK, sync: true, res: make(chan result, 1)}
+	r.nextK++
+	r.ws[wi.k] = wi
+	tag := "w" + strconv.Itoa(wi.k)
+	r.nextBody++
+	b := r.nextBody
+	delivered := make(chan bool, 1)
+	handler, sess := r.handler, r.sess
+	r.w.mu.Lock()
+	r.w.early[tag] = func(rec wrec) {
+		wi.id, wi.hasID = rec.ID, true
+		r.bodyID[b] = rec.ID
+		done := make(chan struct{})
+		go func() {
+			defer func() { recover(); close(done) }()
+			handler.OnMessage(sess, message.RpcMessage{ID: rec.ID, Type: message.GettyRequestTypeResponse, Codec: 1,
+				Body: message.GlobalBeginResponse{Xid: strconv.FormatInt(b, 10)}})
+		}()
+		select {
+		case <-done:
+			delivered <- true
+		case <-time.After(20 * time.Millisecond): // a blocking signal waits for the caller: let the caller go on
+			delivered <- false
+		}
+	}
+	r.w.mu.Unlock()
+	go func() {
+		defer func() {
+			if p := recover(); p != nil {
+				wi.res <- result{nil, fmt.Errorf("panic: %v", p)}
+			}
+		}()
+		v, err := sgetty.GetGettyRemotingClient().SendSyncRequest(message.GlobalBeginRequest{TransactionName: tag})
+		wi.res <- result{v, err}
+	}()
+	r.ev("S", wi.k, false)
+	select {
+	case <-delivered:
+	case <-time.After(10 * time.Second):
+		r.oracle("caller %d did not write its request within 10 s", wi.k)
+		return
+	}
+	r.byID[wi.id] = wi
+	r.ev("D", int64(wi.id), b)
+	r.ev("R", int64(wi.id))
+	wi.delivered = append(wi.delivered, b)
+	select {
+	case res := <-wi.res:
+		r.finish(wi, res)
+		if res.err == nil {
+			r.ev("K", wi.k)
+		} else {
+			r.oracle("caller %d (id %d): its reply was processed right after the request was written, yet it returned error %q", wi.k, wi.id, firstLine(res.err.Error()))
+		}
+	case <-time.After(3 * time.Second):
+		wi.waiting = true
+		r.oracle("caller %d (id %d): its reply was processed right after the request was written, yet it did not return (reply lost)", wi.k, wi.id)
+	}
 }
 
 func (r *runner) finish(wi *waiterInfo, res result) {
@@ -595,6 +663,9 @@ func seqCase(rng *hutil.Rng, malformed bool) *c14case {
 	}
 	n := 4 + rng.Intn(28)
 	for i := 0; i < n; i++ {
+		if len(r.cs.Oracle) > 0 {
+			break // the history is cut at the first failure of the property: it is the failing input
+		}
 		ids := r.waitingIDs()
 		x := rng.Intn(100)
 		if malformed {
@@ -607,6 +678,8 @@ func seqCase(rng *hutil.Rng, malformed bool) *c14case {
 			return int32(c0) + int32(rng.Intn(40)) - 10
 		}
 		switch {
+		case x < 6:
+			r.sendEarly()
 		case x < 30:
 			r.send(rng.Chance(5, 6), rng.Chance(1, 8))
 		case x < 55:
@@ -642,7 +715,7 @@ func seqCase(rng *hutil.Rng, malformed bool) *c14case {
 	}
 	// complete whatever is still waiting (in a random order, some twice)
 	ids := r.waitingIDs()
-	for len(ids) > 0 {
+	for len(ids) > 0 && len(r.cs.Oracle) == 0 {
 		j := rng.Intn(len(ids))
 		r.reply(ids[j])
 		if rng.Chance(1, 4) {
@@ -651,9 +724,11 @@ func seqCase(rng *hutil.Rng, malformed bool) *c14case {
 		r.obs()
 		ids = r.waitingIDs()
 	}
-	r.endChecks(true)
-	r.fresh()
-	r.endChecks(true)
+	if len(r.cs.Oracle) == 0 {
+		r.endChecks(true)
+		r.fresh()
+		r.endChecks(true)
+	}
 	r.finalOut()
 	r.handler.OnClose(r.sess) // leave no registered session behind for the next history
 	r.cs.Secs = time.Since(t0).Seconds()
@@ -682,9 +757,17 @@ func concCase(rng *hutil.Rng, n int) *c14case {
 		if rng.Chance(1, 3) {
 			c = 2 + rng.Intn(2)
 		}
+		burst := rng.Chance(1, 6)
+		if burst {
+			c = 6
+		}
 		p := plan{copies: c}
 		for j := 0; j < c; j++ {
-			p.delays = append(p.delays, time.Duration(rng.Intn(3000))*time.Microsecond)
+			d := time.Duration(rng.Intn(3000)) * time.Microsecond
+			if burst {
+				d = 0 // all copies at once: several pass the lookup before the first removes the entry
+			}
+			p.delays = append(p.delays, d)
 		}
 		plans[i] = p
 	}
@@ -968,12 +1051,21 @@ func Run14(args map[string]string) {
 		cases = append(cases, batchCase(rng.Fork(77), hutil.ArgInt(args, "nbatch", 24)))
 	} else {
 		nseq := hutil.ArgInt(args, "nseq", 100)
-		for i := 0; i < nseq; i++ {
+		failing := func() int {
+			n := 0
+			for _, c := range cases {
+				if len(c.Oracle) > 0 {
+					n++
+				}
+			}
+			return n
+		}
+		for i := 0; i < nseq && failing() < 3; i++ {
 			cases = append(cases, seqCase(rng.Fork(uint64(i)), i%5 == 4))
 		}
 		sizes := []int{1, 2, 8, 64}
 		nconc := hutil.ArgInt(args, "nconc", 8)
-		for i := 0; i < nconc; i++ {
+		for i := 0; i < nconc && failing() < 3; i++ {
 			sz := sizes[i%len(sizes)]
 			if i >= 2*len(sizes) && i%7 == 0 {
 				sz = 256
